@@ -80,10 +80,16 @@ def run_unit(args):
             c.deadline = time.time() + (90 if tier == "quick" else 600)
             res["bounded"] = u.bounded
         proxies.set_cx(c)
+        old_budget = (core.Z3_TIMEOUT_MS, core.CVC5_TIMEOUT_MS)
+        if u.z3_ms:
+            core.Z3_TIMEOUT_MS = u.z3_ms
+        if u.cvc5_ms is not None:
+            core.CVC5_TIMEOUT_MS = u.cvc5_ms
         try:
             c.explore(u.body)
         finally:
             c.unroute()
+            core.Z3_TIMEOUT_MS, core.CVC5_TIMEOUT_MS = old_budget
         res["paths"] = c.paths_run
         res["exhausted"] = c.exhausted
         res["rewrite"] = getattr(c, "rewrite_log", [])
@@ -244,6 +250,61 @@ def complete_by_unrolling(u, prop, o, known_ids, seed):
     return None
 
 
+def _unit_child(task, q):
+    try:
+        q.put(run_unit(task))
+    except BaseException as e:
+        q.put({"unit": task[1], "obligations": [], "covers": [], "unsupported": [], "paths": 0, "rewrite": [], "models": [],
+               "crashes": [[0, "%s: %s" % (type(e).__name__, e), traceback.format_exc()[-1500:]]],
+               "cross": {"runs": 0, "effective": 0, "failed": []}, "secs": {}, "exhausted": False, "targets": [], "wall": 0})
+
+
+def run_units_watchdog(tasks, jobs, limit_s):
+    """one process per unit, hard wall-clock limit each (SMT string solving does not always honour its
+    own timeout): an overrunning unit is killed and reported undecided(time limit), never a violation."""
+    ctx = mp.get_context("fork")
+    pending = list(enumerate(tasks))
+    running, results = {}, {}
+    while pending or running:
+        while pending and len(running) < jobs:
+            i, t = pending.pop(0)
+            q = ctx.Queue()
+            p = ctx.Process(target=_unit_child, args=(t, q))
+            p.start()
+            running[i] = (p, q, time.time(), t)
+        time.sleep(0.05)
+        for i, (p, q, t0, t) in list(running.items()):
+            got = None
+            try:
+                got = q.get_nowait()
+            except Exception:
+                pass
+            if got is not None:
+                results[i] = got
+                p.join(5)
+                del running[i]
+            elif not p.is_alive():
+                try:
+                    got = q.get(timeout=1)
+                except Exception:
+                    got = None
+                results[i] = got or {"unit": t[1], "obligations": [], "covers": [], "paths": 0, "rewrite": [], "models": [],
+                                     "unsupported": [[0, "unit process died without a result"]], "crashes": [],
+                                     "cross": {"runs": 0, "effective": 0, "failed": []}, "secs": {}, "exhausted": False, "targets": [], "wall": 0}
+                del running[i]
+            elif time.time() - t0 > limit_s:
+                p.terminate()
+                p.join(5)
+                if p.is_alive():
+                    p.kill()
+                results[i] = {"unit": t[1], "obligations": [], "covers": [], "paths": 0, "rewrite": [], "models": [],
+                              "unsupported": [[0, "unit exceeded its wall-clock limit of %d s (solver did not return): undecided" % limit_s]],
+                              "crashes": [], "cross": {"runs": 0, "effective": 0, "failed": []}, "secs": {}, "exhausted": False,
+                              "targets": [], "wall": limit_s, "timed_out": True}
+                del running[i]
+    return [results[i] for i in range(len(tasks))]
+
+
 # ------------------------------------------------------------------ property-level driver
 def check_property(prop, tier, seed, jobs=None):
     t0 = time.time()
@@ -254,13 +315,15 @@ def check_property(prop, tier, seed, jobs=None):
     only = os.environ.get("PYVC_ONLY")
     if only:
         units = [u for u in units if re.search(only, u.name)]
+    skipped_units = [u.name for u in units if tier not in u.tiers]
+    units = [u for u in units if tier in u.tiers]
     tasks = [(prop, u.name, seed, tier, known_ids, ncross) for u in units]
     jobs = jobs or min(16, max(1, len(tasks)))
-    if jobs > 1 and not os.environ.get("PYVC_SERIAL"):
-        with mp.get_context("fork").Pool(jobs, maxtasksperchild=1) as pool:
-            results = pool.map(run_unit, tasks, chunksize=1)
-    else:
+    unit_limit = int(os.environ.get("PYVC_UNIT_LIMIT_S", "150" if tier == "quick" else "900"))
+    if os.environ.get("PYVC_SERIAL"):
         results = [run_unit(t) for t in tasks]
+    else:
+        results = run_units_watchdog(tasks, jobs, unit_limit)
 
     lock_path = os.path.join(ROOT, "obligations.lock.json")
     lock = json.load(open(lock_path)) if os.path.exists(lock_path) else {}
@@ -400,6 +463,7 @@ def check_property(prop, tier, seed, jobs=None):
                        "covers_sat": sum(1 for c in r["covers"] if c[1] == "sat"), "covers": len(r["covers"]),
                        "cross_check": {k: (v if not isinstance(v, list) else v[:3]) for k, v in r["cross"].items()}}
                       for r in results],
+            "units_not_run_in_this_tier": skipped_units,
             "rewrite_diff": sum((r["rewrite"] for r in results), [])[:80],
             "undecided": undecided[:60],
             "vacuity": vacuous, "locked_not_regenerated": missing_locked[:40],
